@@ -10,7 +10,8 @@ Remaining, by name (all in `CallRunOK`):
   * `CallRunOK.order`      the OpenMP reduction adds each loop index once (any order),
   * `CallRunOK.cache`      `CacheValOK`: the sieve arrays written by `init_cache` (NOT modelled: `PhiCacheL1.val` is abstract) hold phi(y, b)
                            where `is_cached` permits a lookup; the state half (`max_a_cached_ ≤ max_a_`) is proved for the fresh object and
-                           preserved by the model; caches that are disabled (`max_a_ ≤ 8`, e.g. every call with a ≤ 38) need nothing.
+                           preserved by the model; caches that are disabled (`max_a_ ≤ 8`: every call with a ≤ 38 or with
+                           `(uint64_t) pow(x, 1/2.3) ≤ 1680`, i.e. x ≤ 2.6·10^7 — the whole pi_legendre range) need nothing.
 Only property theorems, non-vacuity examples and the axiom audit live here.
 -/
 import PcProofs.ClosePhiEx
@@ -73,6 +74,15 @@ theorem cacheOK_noCache (c : PhiCacheL1) (h : c.maxA ≤ 8) : CacheOK (c, 0) := 
 theorem phiCacheGeometry_small (a powEst : ℕ) (ha : a ≤ 38) : phiCacheGeometry a powEst = (0, 0) :=
   Pc.ClosePhi.phiCacheGeometry_small a powEst ha
 
+/-- … and whenever the estimate `(uint64_t) std::pow(x, 1 / 2.3)` is at most 1680 (`max_x_size_ < 8`) -/
+theorem phiCacheGeometry_lowPow (a powEst : ℕ) (h : powEst ≤ 1680) : phiCacheGeometry a powEst = (0, 0) :=
+  Pc.ClosePhi.phiCacheGeometry_lowPow a powEst h
+
+/-- cache: a fresh object with the constructor's geometry needs no hypothesis in these two cases -/
+theorem cacheOK_of_geometry (c : PhiCacheL1) (a powEst : ℕ) (hc : (c.maxX, c.maxA) = phiCacheGeometry a powEst)
+    (h : a ≤ 38 ∨ powEst ≤ 1680) : CacheOK (c, 0) :=
+  Pc.ClosePhi.cacheOK_of_geometry c a powEst hc h
+
 /-- cache: the states the model's own updates reach stay legal -/
 theorem cacheOK_step (E : PhiEnv) (A : ℕ) (hE : EnvOK E A) (fuel : ℕ) (sign : ℤ) (x a mac : ℕ) (hf : a < fuel) (ha : a < A)
     (hx : 1 ≤ x) (h : CacheOK (E.cache, mac)) : CacheOK (E.cache, (phiRecAlg E fuel sign x a mac).2) :=
@@ -106,4 +116,6 @@ end Pc.C07Closed
 #print axioms Pc.C07Closed.cacheOK_initial
 #print axioms Pc.C07Closed.cacheOK_noCache
 #print axioms Pc.C07Closed.phiCacheGeometry_small
+#print axioms Pc.C07Closed.phiCacheGeometry_lowPow
+#print axioms Pc.C07Closed.cacheOK_of_geometry
 #print axioms Pc.C07Closed.cacheOK_step
